@@ -294,6 +294,26 @@ def run_case(case):
         inputs.append(target)
         if got[0] == 'ok':
             results.append(got[1])
+    # history on ONE target object: the caller extends the list it passed before and evaluates the same spec on the same object again
+    if inp_b[0] == 'list' and len(results) == 3:
+        outer, menu, idxs = inp_b
+        target = inputs[2]
+        lst = target['k'] if spec_term[1] == 'k' else target
+        lst.append(MENUS[menu]()[0])
+        try:
+            want = ('ok', reference(spec_term, apply_sub(spec_term[1], ref_items(outer, menu, list(idxs) + [0]))))
+        except Exception as e:
+            want = ('err', type(e).__name__)
+        try:
+            res = glom(target, spec)
+            if spec_term[0] == 'flatten' and spec_term[2] == 'lazy':
+                res = list(res)
+            got = ('ok', res)
+        except Exception as e:
+            got = ('err', type(e).__name__)
+        if (want[0], got[0]) != ('err', 'err') and (want[0] != got[0] or describe(want[1]) != describe(got[1])):
+            return R({'expected': 'after the caller appended an element to the SAME target object: %r' % (want,), 'observed': repr(got),
+                      'spec': repr(spec), 'input': inp_b}, 'ok')
     # the result object of an evaluation is a fresh object: it is no input container or element and no earlier result
     # (inner leaves of the elements are shared by reference, exactly as in the plain reduction)
     seen = {}
